@@ -5,7 +5,7 @@ import Mathlib.Tactic.SplitIfs
 /-! # Tie: the editing methods of `cellmlmanip.model.Model` (generated from the source) = the hand model
       `Cellml/Model/State.lean` that the theorems of `Props/C08.lean` are about -/
 
-namespace Cellml.Tie
+namespace Cellml.Tie.PModelState
 open Model PyM Cellml.Gen
 
 /-- push `.run s` through a generated `do` block (conditions are left folded: see the note on instances in the
@@ -276,4 +276,4 @@ theorem addVariable_tie_of_inv (s : MState) (h : Inv s) (name : String) (units :
 theorem getDefinition_tie_obs (s : MState) (v : Nat) :
     (ModelState.getDefinition v).run s = (.ok ((obs s).definition v), s) := getDefinition_tie s v
 
-end Cellml.Tie
+end Cellml.Tie.PModelState
